@@ -153,3 +153,26 @@ package rlwe
 //@   ensures implies(len(ct.Value) == 3, val(pt.Value) == old(val(ct.Value[0])) + old(val(ct.Value[1])) * s + old(val(ct.Value[2])) * s * s)
 //@   ensures mexp(pt.Value) == 0 && indom(pt.Value, ct.IsNTT)
 //@   ensures iff(pt.IsNTT, ct.IsNTT) && iff(pt.IsMontgomery, ct.IsMontgomery) && iff(pt.IsBatched, ct.IsBatched) && pt.LogDimensions.Rows == ct.LogDimensions.Rows && pt.LogDimensions.Cols == ct.LogDimensions.Cols
+
+// ==== ghost labels used by the sparse-key confinement clause of property C18 ====
+// nq(x) / np(x): number of Q / P moduli of a parameter set or of the parameter set a key generator was built from;
+// sparsekey(sk): the secret key was sampled with a fixed (low) Hamming weight.
+//@ ghost nq(x) int
+//@ ghost np(x) int
+//@ ghost sparsekey(sk) bool
+
+//@ afunc NewParametersFromLiteral
+//@   trusted ghost labelling only: the parameter set has exactly the moduli of the literal when Q and P are given explicitly
+//@   ensures nq(params) == len(paramDef.Q) && np(params) == len(paramDef.P)
+
+//@ afunc NewKeyGenerator
+//@   trusted ghost labelling only: a key generator works at the moduli of its parameter set
+//@   ensures nq(result) == nq(params) && np(result) == np(params)
+
+//@ afunc KeyGenerator.GenSecretKeyWithHammingWeightNew
+//@   trusted ghost labelling only
+//@   ensures sparsekey(sk)
+
+//@ afunc KeyGenerator.GenEvaluationKeyNew
+//@   trusted this precondition IS the confinement clause of C18: a key whose security rests on a sparse secret (the output key) is generated at the smallest modulus
+//@   requires implies(sparsekey(skOutput), nq(kgen) == 1 && np(kgen) == 1)
